@@ -116,6 +116,20 @@ def returned_without_cause(tr):
     return "onlythen: run() returned %s at event %d; nothing in the script ends it (no DISCONNECT, no transport fault, handles alive)" % (rr[1][:40], rr[0])
 
 
+def queued_across(case, tr):
+    """requests submitted while no connection is up wait in the Context's queue; once the next connection runs they are
+    performed, in order, and complete normally"""
+    if not (case.get("id") or "").startswith("queued-before-"):
+        return None
+    done = tr.done()
+    for op, sp in sorted(op_specs(tr).items()):
+        rs = [r for _, r in done.get(op, [])]
+        if not rs or not rs[0].startswith("ok"):
+            return "queued: operation %d (%s), submitted between two connections of the Context, ended with %s instead of being performed on the next connection" % (
+                op, sp["kind"], rs[:1] or "nothing (still pending)")
+    return None
+
+
 def rejected_wellformed(tr, what):
     """C07/C08/C09 cases deliver only packets built by the encoders of tools/mqtt.py (well formed by construction): run()
     giving up on one of them with a codec error leaves it, and everything after it, unacknowledged and undelivered"""
@@ -224,6 +238,13 @@ def c09(case, lines):
         got = [kv(" ".join(l.split(" ")[3:]))["pl"] for l in lines if l.split(" ")[1] == "I"]
         if got != [M.hx(b"m5"), M.hx(b"n5")]:
             return "qos2: the stream yielded %s; m5 was released by its PUBREL, n5 is a new message under the same identifier: ['%s', '%s'] expected" % (got, M.hx(b"m5"), M.hx(b"n5"))
+        return None
+    if (case.get("id") or "").startswith("refused-attempt-then-resume"):
+        # the refused CONNACK in between says nothing about the session: m1 (delivered, PUBREC sent, not released) is known
+        got = [kv(" ".join(l.split(" ")[3:]))["pl"] for l in lines if l.split(" ")[1] == "I"]
+        if got != [M.hx(b"m1"), M.hx(b"m2")]:
+            return "qos2: the stream yielded %s; m1 was re-delivered after a refused connection attempt and a resumed session (Session Present 1), m2 followed its PUBREL: exactly-once means ['%s', '%s']" % (
+                got, M.hx(b"m1"), M.hx(b"m2"))
         return None
     if (case.get("id") or "").startswith("pubrec-fails-then-resume"):
         # m2's PUBREC could not be written, the broker delivers m2 again on the next connection: m2 reaches the application once
@@ -607,6 +628,11 @@ def c13(case, lines):
         if r < 128 and not c[0].startswith("C ok ") or r >= 128 and not c[0].startswith("C err Connect r=%d " % r):
             return "connect: CONNACK reason %d gave %s" % (r, c[0][:40])
         return None
+    if cid.startswith("challenge-"):
+        c = [x for k in tr.by for x in tr.by[k] if x.startswith("C ")]
+        if not c or not c[0].startswith("C auth r=24 "):
+            return "connect: the server answered the CONNECT with an AUTH challenge (reason 0x18); connect() gave %s" % (c[:1] or "nothing")
+        return None
     if cid.startswith("connect-"):
         c = [x for k in tr.by for x in tr.by[k] if x.startswith("C ")]
         if cid == "connect-auth":
@@ -946,6 +972,9 @@ def c06(case, lines):
 
 def c06_main(case, lines):
     tr0 = Trace(case, lines)
+    qa_ = queued_across(case, tr0)
+    if qa_:
+        return qa_
     if not (case.get("meta") or {}).get("malformed"):
         r_ = rejected_wellformed(tr0, "the publishes outstanding never learn their outcome")
         if r_:
@@ -1229,7 +1258,7 @@ def c17(case, lines):
                 sei = int(m.group(1))
             for k in range(conn["first"], conn["last"] + 1):
                 for x in tr.by.get(k, []):
-                    m = re.match(r"C ok .*\bsei=(\d+)", x)
+                    m = re.match(r"C ok .*\bsei==(\d+)", x)
                     if m:
                         sei = int(m.group(1))
             expired = sei == 0 or (sei != 4294967295 and elapsed > sei)
@@ -1517,7 +1546,7 @@ def auth_content(tr):
 @oracle("C01")
 def c01(case, lines):
     tr = Trace(case, lines)
-    r0 = connect_content(tr) or auth_content(tr)
+    r0 = connect_content(tr) or auth_content(tr) or queued_across(case, tr)
     if r0:
         return r0
     if (case.get("id") or "") in ("quota0-others", "pings-outstanding"):
